@@ -74,6 +74,8 @@ pub fn replay(input: &str, output: &str) {
                 }
                 class = if v % 2 == 1 { "signs+quarter-offsets" } else { "signs+random-offsets+turns" };
             }
+            // a robot declared 5-DOF has the same forward kinematics (joint 6 is simply not solved for)
+            if (id + v) % 4 == 1 { p.dof = 5; }
             let q = joints_for(&p, &e, &turns);
             let ctx = json!({"params": robots::params_json(&p), "q": q, "e": e});
             let robot = OPWKinematics::new(p);
@@ -195,7 +197,8 @@ pub fn record(output: &str) {
         let class = robots::GEOMETRY_CLASSES[k % robots::GEOMETRY_CLASSES.len()];
         let p = if k % 11 == 10 { robots::named_robots()[k % 6].1 } else { robots::geometry(class, &mut r) };
         let oc = ["zero", "quarter", "random"][k % 3];
-        let p = robots::convention(p, (k / 3) % 64, oc, &mut r);
+        let mut p = robots::convention(p, (k / 3) % 64, oc, &mut r);
+        if k % 5 == 4 { p.dof = 5; }
         let span = [1.0, 3.2, 6.3, 40.0][k % 4];
         let q: [f64; 6] = std::array::from_fn(|_| r.gen_range(-span..span));
         let robot = OPWKinematics::new(p);
